@@ -85,7 +85,16 @@ def make_batch(seed, n_traits, name, exclude=()):
         enabled = grng.getrandbits(nopt) | (1 << grng.randrange(nopt))
         if grng.random() < 0.25:
             enabled = (1 << nopt) - 1
-        groups.append((f"g{k}", emit.Group(f"Gp{k}", members, n_mand, enabled)))
+        # aliases that make the visible (alias) order differ from the order of the traits' own names
+        aliases = {}
+        for oi in range(nopt):
+            if grng.random() < 0.45:
+                tn = members[n_mand + oi][1].name
+                aliases[oi] = (grng.choice(["Aa", "Zz", "Mm"]) + tn + "As")
+        groups.append((f"g{k}", emit.Group(f"Gp{k}", members, n_mand, enabled, aliases)))
+        if nopt >= 2:
+            # the same group again with single-trait requests only
+            groups.append((f"h{k}", emit.Group(f"Gq{k}", members, n_mand, enabled, aliases)))
     d = os.path.join(WORK, name)
     os.makedirs(os.path.join(d, "src"), exist_ok=True)
     write_if_changed(os.path.join(d, "Cargo.toml"), CARGO.format(name=name.replace("-", "_"), repo=REPO, root=ROOT))
@@ -103,7 +112,7 @@ def make_batch(seed, n_traits, name, exclude=()):
     for (gm, g) in groups:
         if gm in exclude or any(m in exclude for (m, _) in g.members):
             continue
-        write_if_changed(os.path.join(d, "src", f"{gm}.rs"), emit.group_src(g))
+        write_if_changed(os.path.join(d, "src", f"{gm}.rs"), emit.group_src(g, lite=gm.startswith("h")))
         mods.append(f"mod {gm};")
         runs.append(RUN.format(mod=gm, tname=g.name))
     write_if_changed(os.path.join(d, "src", "main.rs"), MAIN.format(mods="\n".join(mods), runs="".join(runs)))
